@@ -214,6 +214,9 @@ class Store:
         self.outer = outer
         self.inner = {}
         self.subschema = {}
+        # whether a glob ('*') declared this node as a store of children
+        # (the declared sub-schema may be empty)
+        self.glob_declared = False
         self.subtopology = {}
         self.properties = {}
         self.default = None
@@ -552,6 +555,7 @@ class Store:
         self.subschema = deep_merge(
             self.subschema,
             subschema)
+        self.glob_declared = True
 
     def _apply_config(self, config, source=None):
         """
@@ -1181,13 +1185,13 @@ class Store:
         the updaters from their nodes.
         """
 
-        if self.inner or self.subschema:
+        if self.inner or self.subschema or self.glob_declared:
             if not isinstance(value, dict):
                 raise Exception(f"trying to set branch {self.path_for()} to value {value}")
 
             for child, inner_value in value.items():
                 if child not in self.inner:
-                    if self.subschema:
+                    if self.subschema or self.glob_declared:
                         self.inner[child] = Store(self.subschema, self)
                     else:
                         pass
@@ -1204,13 +1208,13 @@ class Store:
         but don't overwrite any existing values.
         """
 
-        if self.inner or self.subschema:
+        if self.inner or self.subschema or self.glob_declared:
             if not isinstance(value, dict):
                 raise Exception(f"trying to set branch {self.path_for()} to value {value}")
 
             for child, inner_value in value.items():
                 if child not in self.inner:
-                    if self.subschema:
+                    if self.subschema or self.glob_declared:
                         self.inner[child] = Store(self.subschema, self)
                     else:
                         self._establish_path((child,), {})
